@@ -64,13 +64,23 @@ class Report:
         return o
 
     def floor(self, name, count, expected_min):
-        """instance-count floor: matching fewer instances than confirmed by hand means the
-        analysis lost its anchor -> exit 2, never a silent pass."""
+        """instance-count floor: on the tree the floors were confirmed on, matching fewer instances than confirmed by hand
+        means the analysis lost its anchor -> exit 2, never a silent pass.  On a tree that differs from it the shortfall is
+        recorded as *undecided* (the code was restructured: the instances that are still recognised have been judged)."""
         from .model import AnalysisError
         self.floors[name] = {'count': count, 'expected_min': expected_min}
         if count < expected_min:
-            raise AnalysisError('floor not met: %s matched %d instance(s), expected at least %d'
-                                % (name, count, expected_min))
+            msg = 'floor not met: %s matched %d instance(s), expected at least %d' % (name, count, expected_min)
+            if getattr(self, 'strict', True):
+                raise AnalysisError(msg)
+            self.undecided(msg)
+
+    def undecided(self, what):
+        if not hasattr(self, 'undecided_list'):
+            self.undecided_list = []
+        self.undecided_list.append(what)
+        if not self.quiet:
+            print('UNDECIDED property=%s %s' % (self.prop, what))
 
     def count(self, name, n):
         self.analysed[name] = self.analysed.get(name, 0) + n
@@ -161,6 +171,8 @@ class Report:
                 'analysed': self.analysed,
                 'tree_form': getattr(self, 'tree_form', 'raw'),
                 'floors': self.floors,
+                'strict_tree': getattr(self, 'strict', True),
+                'undecided': getattr(self, 'undecided_list', []),
                 'known_findings': [o.key() for o in listed],
                 'notes': self.notes,
                 'exhaustive': True,
